@@ -11,7 +11,7 @@ from . import c01, c11
 from .toposort_rules import check_toposort
 
 PROP = "C13"
-FLOORS = {"C13.R1": 7, "C13.R2": 10, "C13.R3": 4, "C13.R4": 8, "C13.R5": 3}
+FLOORS = {"C13.R1": 7, "C13.R2": 10, "C13.R3": 4, "C13.R4": 8, "C13.R5": 3, "C13.R6": 12}
 META = {
     "explanation": "Template of the compiler: mk_fun takes ONE task list from find_tasks over all argument refs together (the same "
                    "scheduler as assignment: trigger closure + reverse-post-order DFS, re-checked here), emits the header, then one "
@@ -147,6 +147,10 @@ def check(col: Collector):
         col.obs.append(o)
     # "assigning through the manager" stores and propagates unconditionally -- what the generated setter does by construction
     from .common import shared, construct_tag
+    from . import c04
+    shared(col, "C13.R6", [c04._calls, c04._leaves],
+           why="the generated text looks every operand (and the called function) up afresh on each call; the manager's tasks must "
+               "evaluate them afresh too (nothing resolved once and remembered)")
     shared(col, "C13.R5", [c01._set_value_protocol],
            select=lambda o: construct_tag(o) in ("write-on-every-path", "propagate-after-write", "trigger-set", "written-value"),
            why="the generated function writes each argument and runs the tasks unconditionally; set_value must do the same")
